@@ -17,4 +17,10 @@ def run(ctx):
         "pipe cases get their heights from the real fetchHeight polling the fake node (heights go up and fall back; `height=` in a line is what "
         "the node reported last, the finality clause is judged against it, `passed=` is what reached the event loop); transactions publish "
         "bursts of 2-4 messages in one block (foreign then token-bridge sender, across page boundaries); attestations include near-miss "
-        "encodings (zero byte inside a string, leading/trailing space, case, byte after a NUL) judged with the contract's padding rule")
+        "encodings (zero byte inside a string, leading/trailing space, case, byte after a NUL) judged with the contract's padding rule"
+        "; rst: restart scenarios - the real loops are stopped by a node API error (failing count poll right after a hand-over / after "
+        "the forward, a failing page request after the count poll or between two pages, a main-chain / header / chain-info error in "
+        "the event loop or the height poller) or cancelled while healthy, and started again on the SAME Watcher value with fresh "
+        "channels as Watcher.Run does (events appended while down, a restart that fails at once, up to 3 restarts in a random walk); "
+        "everything forwarded by all incarnations is judged per position of the governance contract's event log "
+        "(poll-forwarded-twice, shared with C09); meta: see C09")
